@@ -58,6 +58,13 @@ class Impl(object):
             self.iso.add_fp(fp, len(data), **kw)
         elif name == 'REOPEN':
             self.reopen()
+        elif name == 'REOPEN_SAME':
+            # the documented way to re-use one object: close() and open another image with it
+            data = self.write()
+            self.iso.close()
+            fp = io.BytesIO(data)
+            self.iso.open_fp(fp)
+            self.backing = fp
         elif name == 'TICK':
             env.tick()
         else:
@@ -180,6 +187,10 @@ def observe(iso, cfg, with_content=True):
                     else:
                         tree[p] = ('file', rr.get_file_mode(), _read(iso, rr_path=p) if with_content else None)
                 else:
+                    if rec.is_dir() or (rec.rock_ridge is not None and rec.rock_ridge.child_link_record_exists()):
+                        # physical placeholder of a relocated directory (Rock Ridge CL): not a file
+                        tree[p] = ('cl', bool(rec.file_flags & 1))
+                        continue
                     if rec.rock_ridge is not None and rec.rock_ridge.is_symlink():
                         data = b''
                     else:
@@ -212,7 +223,7 @@ def resolve_expected(model, exp=None, mask_bit=True):
                     dynamic.add((ns, p))
                     t[p] = v[:-1] + (None,)
                 else:
-                    if bid is not None and model.blobs[bid]['bit']:
+                    if bid is not None and (model.blobs[bid]['bit'] or model.blobs[bid].get('patched')):
                         bit.add((ns, p))
                     t[p] = v[:-1] + (model.blob_bytes(bid),)
             else:
